@@ -17,7 +17,7 @@ __CPROVER_requires(vx_self->v.index == V_MONOSTATE && !vx_self->predecessor_done
 __CPROVER_ensures(g_spd_calls == 1 && g_spd_index == V_VALUE && g_spd_tok == VALUE_IN)
 __CPROVER_ensures(vx_self->v.index == V_VALUE && vx_self->v.tok == VALUE_IN && g_refs == 0)
 __CPROVER_assigns(vx_self->v, vx_self->predecessor_done, g_alive, g_refs, g_spd_calls, g_spd_index, g_spd_tok, g_emplaces)
-//@LIFT body_recv_value
+//@LIFT body
 #endif
 
 #ifdef U_RECV_ERROR
@@ -28,7 +28,7 @@ __CPROVER_requires(vx_self->v.index == V_MONOSTATE && !vx_self->predecessor_done
 __CPROVER_ensures(g_spd_calls == 1 && g_spd_index == V_ERROR && g_spd_tok == error)
 __CPROVER_ensures(vx_self->v.index == V_ERROR && vx_self->v.tok == error && g_refs == 0)
 __CPROVER_assigns(vx_self->v, vx_self->predecessor_done, g_alive, g_refs, g_spd_calls, g_spd_index, g_spd_tok, g_emplaces)
-//@LIFT body_recv_error
+//@LIFT body
 #endif
 
 #ifdef U_RECV_STOPPED
@@ -39,7 +39,7 @@ __CPROVER_requires(vx_self->v.index == V_MONOSTATE && !vx_self->predecessor_done
 __CPROVER_ensures(g_spd_calls == 1 && g_spd_index == V_STOPPED)
 __CPROVER_ensures(vx_self->v.index == V_STOPPED && g_refs == 0)
 __CPROVER_assigns(vx_self->v, vx_self->predecessor_done, g_alive, g_refs, g_spd_calls, g_spd_index, g_spd_tok, g_emplaces)
-//@LIFT body_recv_stopped
+//@LIFT body
 #endif
 
 /* ================= (ii) set_predecessor_done =============================================================== */
@@ -60,7 +60,7 @@ __CPROVER_ensures(g_victim_calls == (g_victim_engaged_at_release ? 1 : 0))
 __CPROVER_ensures(!self->CONT_MEMBER.victim_engaged && (CONT_KIND == 1 || self->CONT_MEMBER.n == 0))
 __CPROVER_ensures(g_refs == RECV_HOLDS_PTR)
 __CPROVER_assigns(SPD_FRAME)
-//@LIFT body_spd
+//@LIFT body
 #endif
 
 /* ================= (iii) add_continuation, the visitors it uses, the stored continuation ==================== */
@@ -106,7 +106,7 @@ __CPROVER_ensures((CONT_KIND == 1 && g_set_value == 1) ==> (g_get_used && g_get_
 __CPROVER_ensures((CONT_KIND == 1 && g_stored == 1) ==> g_stored_index == Index)
 __CPROVER_ensures(!self->mtx.held)
 __CPROVER_assigns(ADD_FRAME)
-//@LIFT body_add
+//@LIFT body
 #endif
 
 #ifdef U_CONT
@@ -120,7 +120,7 @@ __CPROVER_requires(g_set_value + g_set_error + g_set_stopped == 0 && g_visits ==
 __CPROVER_ensures(g_set_value + g_set_error + g_set_stopped == 1 && DELIVERED_AS_RECORDED)
 __CPROVER_ensures((CONT_KIND == 1 && g_set_value == 1) ==> (g_get_used && g_get_index == Index))
 __CPROVER_assigns(g_alive, g_set_value, g_set_error, g_set_stopped, g_tok, g_get_index, g_get_used, g_visits)
-//@LIFT body_cont
+//@LIFT body
 #endif
 
 /* ================= (iv) shared_state::start ================================================================= */
@@ -136,7 +136,7 @@ __CPROVER_requires(self->start_called || self->os_has)
 __CPROVER_ensures(g_lin && g_lin_new && self->start_called)
 __CPROVER_ensures(g_pred_started == (g_lin_old ? 0 : 1))
 __CPROVER_assigns(self->start_called, self->os_has, g_lin, g_lin_old, g_lin_new, g_pred_started)
-//@LIFT body_start
+//@LIFT body
 #endif
 
 /* ================= consumer operation_state::start ========================================================== */
@@ -148,7 +148,7 @@ __CPROVER_requires(self->state == vx_self && &self->receiver == vx_receiver && g
  * (split, split_tuple) start() is requested before that -- afterwards the operation state may be gone */
 __CPROVER_ensures(g_ss_adds == 1 && (OP_START_STARTS_PRED ? g_ss_starts >= 1 : 1))
 __CPROVER_assigns(g_alive, g_ss_starts, g_ss_adds, g_ss_order_ok)
-//@LIFT body_opstart
+//@LIFT body
 #endif
 
 static int pick_alt(void) { return (PRED_SENDS_STOPPED && nondet_bool()) ? V_STOPPED : (nondet_bool() ? V_ERROR : V_VALUE); }
